@@ -86,7 +86,7 @@ theorem initPaths'_keys (n : Nat) :
 
 theorem streamInv_init (cfg : Cfg) (trk : List Nat) (b : Bool) :
     StreamInv cfg { tracks := trk, isLeading := b, nextSegmentID := initNext cfg } := by
-  constructor <;> simp [allParts, openParts, initNext, GapsThenReals, MsnFrom, Consec]
+  constructor <;> simp [allParts, openParts, initNext, GapsThenReals, MsnFrom, Consec, Tiled]
   · intro h; simp [h]
 
 theorem initState_inv (cfg : Cfg) (hne : cfg.tracks ≠ []) (hc : CfgOK cfg) : Inv (initState cfg) := by
